@@ -37,7 +37,10 @@ int main()
     std::ios::sync_with_stdio(false);
     static vh::guarded_buffer gb(1 << 16);
     std::string line;
-    long cases = 0;
+    long cases = 0, timeouts = 0, fails = 0;
+    // a broken tree can turn every case into a CPU-budget timeout: after 12 timeouts (or 400 failures) in this process the
+    // remaining cases are reported as NOT-RUN instead of being executed, so that the run ends in minutes, not hours
+    auto give_up = [&] { return timeouts >= 12 || fails >= 400; };
     while(std::getline(std::cin, line))
     {
         if(line.empty())
@@ -60,6 +63,12 @@ int main()
                 want += l;
                 want += '\n';
             }
+            if(give_up())
+            {
+                std::cout << "FAIL " << id << " NOT-RUN (too many failures in this driver process)\n";
+                cases++;
+                continue;
+            }
             auto img = drv::unhex(hex == "-" ? std::string() : hex);
             gb.fill(0xCD);
             unsigned char* p = gb.at(img.size());
@@ -78,6 +87,8 @@ int main()
             if(ro)
                 gb.readonly(false);
             cases++;
+            timeouts += out.kind == vh::TIMEOUT;
+            fails += (out.kind != vh::OK || o.s != want);
             if(out.kind != vh::OK)
                 std::cout << "FAIL " << id << " OUTCOME " << (out.kind == vh::HANDLER ? "HANDLER " : out.kind == vh::FAULT ? "FAULT " : "TIMEOUT ")
                           << (out.expr ? out.expr : "") << " partial=" << o.s.size() << "\n";
@@ -97,6 +108,12 @@ int main()
             hs >> msgsize >> bg;
             std::string rest;
             std::getline(hs, rest);
+            if(give_up())
+            {
+                std::cout << "FAIL " << id << " NOT-RUN (too many failures in this driver process)\n";
+                cases++;
+                continue;
+            }
             drv::In in(rest);
             auto b = drv::unhex(bg);
             const std::size_t cap = b.size();
@@ -110,6 +127,8 @@ int main()
             // the view covers the whole capacity: the trailing bytes are the canary the shadow buffer watches
             auto out = vh::guarded([&] { run_enc(mi, mode, p, cap, in, k); }, 5000);
             cases++;
+            timeouts += out.kind == vh::TIMEOUT;
+            fails += (out.kind != vh::OK || !k.first_fail.empty());
             if(out.kind != vh::OK)
                 std::cout << "FAIL " << id << " OUTCOME " << (out.kind == vh::HANDLER ? "HANDLER " : out.kind == vh::FAULT ? "FAULT " : "TIMEOUT ")
                           << (out.expr ? out.expr : "") << " after_points=" << k.points << "\n";
